@@ -146,8 +146,9 @@ fn run_impl(case: &Case) -> Result<Vec<String>, String> {
         peer.accept_attach(0, 0, Some(0), ReceiverSettleMode::First).await.map_err(|e| format!("{:?}", e))?;
         peer.accept_attach(0, 1, Some(0), ReceiverSettleMode::First).await.map_err(|e| format!("{:?}", e))?;
         let (_conn, _session, mut r1, mut r2) = client.await.map_err(|e| format!("{:?}", e))??;
-        r1.set_credit(100).await.map_err(|e| format!("{:?}", e))?;
-        r2.set_credit(100).await.map_err(|e| format!("{:?}", e))?;
+        // (a delivery may come in 200 frames with a delivery of the other link after every fourth of them)
+        r1.set_credit(1000).await.map_err(|e| format!("{:?}", e))?;
+        r2.set_credit(1000).await.map_err(|e| format!("{:?}", e))?;
         let mut out = vec![];
         let mut other_seen = 0usize;
         let mut other_sent = 0usize;
